@@ -1,7 +1,8 @@
 (* C09 — conditionals and format selectors include or elide exactly their scope. *)
 From Coq Require Import List NArith Bool String.
 Import ListNotations.
-Require Import St Exp Proc1 Proc2 Proc3 Ctl Loop Doc IfProofs IfTrue.
+Require Import St Exp Proc1 Proc2 Proc3 Ctl Loop Doc Eqd IfProofs IfTrue.
+Require VarProofs.
 Open Scope string_scope.
 
 (* False branch, for every conditional block, every nesting, every body, every recursive entry pb, every format:
@@ -49,7 +50,16 @@ Theorem C09_end_line_only_pops : forall pb a l c s sc r,
   (inl s = true \/ assoc (R "#;") (umacros s) = None) -> sif s = (r ++ [sc])%list ->
   exists s1, step pb (BMacro (R "#;") a l) (c, s) = (c, s1) /\ s1 =c= s <| sif := r |> /\ panicked s1 = panicked s.
 Proof. exact active_end_line. Qed.
+(* a format-restricted construct, the variable definition: restricted to formats that do not name the current one, the
+   line leaves the rendering state as it was, the log apart (PARTIAL: the other restricted constructs -- filter lines and
+   blocks, includes, macro definitions, parameter and tag declarations -- are tied by the pairs, not proved) *)
+Theorem C09_restricted_variable_definition_is_absent_partial : forall s o s1 n vals f fs s',
+  parse_opts specOptDef (args s) s = (o, s1) -> po_args o = n :: vals -> opt "f" o = Some f ->
+  formats_of f s1 = (fs, s') -> existsb (str_eqb (format s)) fs = false ->
+  macro_def_var s ~~ s.
+Proof. exact VarProofs.def_var_for_other_formats_is_absent. Qed.
 Print Assumptions C09_false_branch.
+Print Assumptions C09_restricted_variable_definition_is_absent_partial.
 Print Assumptions C09_true_branch_delimiters_partial.
 Print Assumptions C09_end_line_only_pops.
 Print Assumptions C09_ignored_region.
